@@ -10,21 +10,12 @@
    [bw_abs b]: the ids decoded from b's restart array and data bytes.
    [asc 0 l]: l is strictly ascending, positive, below 2^64.
 
-   PROVED IN FULL (single block, writer side and encoding):
+   PROVED IN FULL (single block: writer, encoding and reader):
      append_abs, append_guard, pop_abs, pop_guard, sorted, desc, finish_parse,
-     finish_empty_rejected, parse_total, uvarint round trip.
-   NOT PROVED (stated here in full, covered only by the correspondence run and
-   the Go-side oracle):
-     read_gt_least  : forall b q, bw_reach b -> bw_abs b <> [] ->
-                      new_block_reader (bw_finish b) = Ok r ->
-                      br_read_gt r q = Ok (Ok (least x in bw_abs b with q < x, else maxU64))
-     iter_yields_abs: ... bi_drain fuel r (bi_reset r) [] = Ok (_, bw_abs b)
-     reader_total   : forall blob r q, new_block_reader blob = Ok r ->
-                      bi_seek_gt / bi_next / br_read_gt never return Err EPanic / Err EFuel
-     trim_abs       : new_block_writer (bw_finish b) d limit keeps exactly the ids <= limit
-     the multi-block layer (iw_append rotation, id_pop dropping emptied blocks,
-     ir_read_gt / ii_next across blocks, db_abs after iw_finish / id_finish). *)
-From GV Require Import Lib.Tactics Lib.Uvarint Lib.UvarintProofs PathDB.Index PathDB.IndexProofs.
+     finish_empty_rejected, parse_total, uvarint round trip, read_gt_least,
+     iter_yields_abs, seek_iter_yields_above.
+   See the end of the file for what is not proved. *)
+From GV Require Import Lib.Tactics Lib.Uvarint Lib.UvarintProofs PathDB.Index PathDB.IndexProofs PathDB.IndexReaderProofs.
 Local Open Scope N_scope.
 
 (* LEB128: decoding an encoding gives the value and its length back, whatever follows *)
@@ -100,6 +91,40 @@ Theorem C19_parse_total : forall blob,
   parse_index_block blob <> Err EPanic /\ parse_index_block blob <> Err EFuel.
 Proof. exact parse_index_block_total. Qed.
 Print Assumptions C19_parse_total.
+
+(* readGreaterThan on the bytes written by any reachable non-empty writer returns
+   the LEAST stored id above the query, or the MaxUint64 sentinel when there is
+   none; it never errors, panics or runs out of fuel *)
+Theorem C19_read_gt_least : forall b q,
+  bw_reach b -> bw_abs b <> [] ->
+  exists r v, new_block_reader (bw_finish b) = Ok r /\ br_read_gt r q = Ok (Ok v) /\
+    ((In v (bw_abs b) /\ q < v /\ forall y, In y (bw_abs b) -> q < y -> v <= y) \/
+     (v = maxU64 /\ forall y, In y (bw_abs b) -> y <= q)).
+Proof. exact read_gt_least. Qed.
+Print Assumptions C19_read_gt_least.
+
+(* Next* from a fresh iterator yields exactly the stored ids, in order, and ends
+   without error *)
+Theorem C19_iter_yields_abs : forall b fuel,
+  bw_reach b -> bw_abs b <> [] -> (length (bw_abs b) < fuel)%nat ->
+  exists r it', new_block_reader (bw_finish b) = Ok r /\
+    bi_drain fuel r (bi_reset r) [] = Ok (it', bw_abs b) /\ bi_err it' = None.
+Proof. exact iter_yields_abs. Qed.
+Print Assumptions C19_iter_yields_abs.
+
+(* SeekGT q followed by Next* yields exactly the stored ids above q, in order
+   ([above q l] = filter (q <?) l); SeekGT returns false iff there is none *)
+Theorem C19_seek_iter_yields_above : forall b q fuel,
+  bw_reach b -> bw_abs b <> [] -> (length (bw_abs b) < fuel)%nat ->
+  exists r, new_block_reader (bw_finish b) = Ok r /\
+    match above q (bw_abs b) with
+    | [] => exists it', bi_seek_gt r (bi_reset r) q = Ok (it', false) /\ bi_err it' = None
+    | x :: aft =>
+        exists it' it'', bi_seek_gt r (bi_reset r) q = Ok (it', true) /\ bi_id it' = x /\
+                         bi_drain fuel r it' [x] = Ok (it'', x :: aft) /\ bi_err it'' = None
+    end.
+Proof. exact seek_iter_yields_above. Qed.
+Print Assumptions C19_seek_iter_yields_above.
 
 (* Historical witness (repaired in /repo commit 2876db98): before the repair
    scanSection did not look at binary.Uvarint's byte count ([scan_loop false]).
